@@ -44,7 +44,7 @@ def gen_cases(tier, seed):
             mesh = [k, k, k]
         cases.append({"kind": "real", "crystal": {"name": name, "order": ["asis", "random"][rng.integers(2)], "order_seed": int(rng.integers(100))}, "mesh": mesh,
                       "shift": [None, [0.5, 0.5, 0.5], [0.5, 0, 0]][rng.integers(3)] if rng.integers(3) == 0 else None, "gamma": bool(rng.integers(2)),
-                      "sigma_rel": float(rng.uniform(0.02, 0.08)), "smear": ["Normal", "Cauchy"][rng.integers(2)], "seed": int(rng.integers(10 ** 6)), "_cost": 6})
+                      "_threads": [1, 2, 3, 5, 7, 16][int(rng.integers(6))], "sigma_rel": float(rng.uniform(0.02, 0.08)), "smear": ["Normal", "Cauchy"][rng.integers(2)], "seed": int(rng.integers(10 ** 6)), "_cost": 6})
     for i in range(48 if tier == "quick" else 400):
         cases.append({"kind": "field", "diag": i % 4, "mesh": [int(v) for v in rng.integers(1, 5, 3)], "field": ["smooth", "rough", "ties", "constant"][i // 4 % 4],
                       "seed": int(rng.integers(10 ** 6))})
@@ -213,6 +213,22 @@ def run_case(c):
                     want = float(nb)
                 if abs(integ - want) > 2e-3 * nb:
                     bad("smearing_normalisation", "smearing DOS (%s) integrates to %.6f, expected %.6f" % (c["smear"], integ, want), smear=c["smear"], **feat)
+            if not tet:
+                # set_sigma on an existing object (whichever width the object then uses - in the pinned tree the smearing function keeps the width
+                # it was created with until set_smearing_function is called again): the density must stay normalised and non-negative
+                from phonopy.phonon.dos import TotalDos as TDs
+
+                t_a = TDs(ph.mesh, sigma=2.5 * sigma)
+                t_a.set_sigma(sigma)
+                t_a.set_draw_area(fmin - 25 * sigma, fmax + 25 * sigma, sigma / 6)
+                t_a.run()
+                da_, fa_ = np.array(t_a.dos), np.array(t_a.frequency_points)
+                obs["n_set_sigma"] = obs.get("n_set_sigma", 0) + 1
+                if (da_ < -1e-10).any():
+                    bad("negative_dos", "total DOS negative after set_sigma: %.3e" % da_.min(), **feat)
+                if abs(float(np.trapezoid(da_, fa_)) - nb) > 2e-3 * nb:
+                    bad("smearing_normalisation", "after set_sigma(%.4g) on an object created with width %.4g the smearing DOS integrates to %.6f, expected %d" % (
+                        sigma, 2.5 * sigma, float(np.trapezoid(da_, fa_)), nb), smear="Normal", set_sigma=True, **feat)
             if not tet and c["smear"] == "Cauchy":
                 # the projected DOS with the same (Cauchy) smearing function, through the class that the API wraps: additivity and its defining sum
                 from phonopy.phonon.dos import ProjectedDos as PD
